@@ -94,12 +94,24 @@ class ApiRun:
 
     @staticmethod
     def signature(problem):
+        if problem.startswith("the library raised "):
+            return problem[:160]        # the same exception with the same text (a key such as 'w:ilvl' contains a colon)
         return problem.split(":")[0][:60]
 
     def fails(self, case, sig):
+        # an exception of the library on an input on which the model (= the code as validated) returns normally: shrinking must
+        # not leave that situation, or it ends at an input outside the grammar on which the unchanged library raises as well
+        # (a w:num without w:abstractNumId, a w:lvl without w:ilvl ...)
+        keep_model_ok = False
+        if sig.startswith("the library raised ") and self.model_ok:
+            m0 = self.model([case])[0]
+            keep_model_ok = m0 is not None and "err" not in m0 and "error" not in m0
+
         def f(parts, opts):
             c = dict(case, parts=parts, options=opts)
             m = self.model([c])[0]
+            if keep_model_ok and (m is None or "err" in m or "error" in m):
+                return False
             r = self.real(c)
             return any(self.signature(p) == sig for p in self.problems(c, r, m))
         return f
